@@ -417,11 +417,12 @@ class Type3Tag(nfc.tag.Tag):
         """
         nmaxb = [0, 0x10000]
         while nmaxb[1] - nmaxb[0] > 1:
-            print(nmaxb)
             block = nmaxb[0] + (nmaxb[1] - nmaxb[0]) // 2
             try:
                 self.read_from_ndef_service(block)
-            except Type3TagCommandError:
+            except Type3TagCommandError as error:
+                if error.errno <= 0:
+                    raise  # communication failure, not a tag status
                 nmaxb[1] = block
             else:
                 nmaxb[0] = block
@@ -433,7 +434,9 @@ class Type3Tag(nfc.tag.Tag):
         for nbr in range(1, 16):
             try:
                 self.read_from_ndef_service(*(nbr*[0]))
-            except Type3TagCommandError:
+            except Type3TagCommandError as error:
+                if error.errno <= 0:
+                    raise  # communication failure, not a tag status
                 nbr -= 1
                 break
 
@@ -444,7 +447,9 @@ class Type3Tag(nfc.tag.Tag):
         for nbw in range(1, 14):
             try:
                 self.write_to_ndef_service(nbw*data, *(nbw*[0]))
-            except Type3TagCommandError:
+            except Type3TagCommandError as error:
+                if error.errno <= 0:
+                    raise  # communication failure, not a tag status
                 nbw -= 1
                 break
 
@@ -456,6 +461,8 @@ class Type3Tag(nfc.tag.Tag):
         # We now have all information needed to create and write the
         # new attribute data to block number 0.
         attribute_data = bytearray(16)
+        if version is None:
+            version = 0x10
         attribute_data[0:5] = pack(">BBBH", version, nbr, nbw, nmaxb)
         attribute_data[10] = 0x01 if nbw > 0 else 0x00
         attribute_data[14:16] = pack(">H", sum(attribute_data[0:14]))
